@@ -23,7 +23,7 @@ def csrc(t, spec):
     kind, v = spec
     if kind == 'str':
         return f'(HStr {t.s(v)})'
-    if kind == 'tid':
+    if kind in ('tid', 'utid'):
         return f'(HTid {t.k(v)})'
     return 'HOther'
 
@@ -74,7 +74,7 @@ def absent_ids(nodes):
 def forms(rng, x):
     """CURIE str (both spellings when legal) or TermId"""
     p, i = G.key_of(x)
-    out = [['tid', x], ['str', G.value_of(x)]]
+    out = [['tid', x], ['str', G.value_of(x)], ['utid', x]]
     if p and '_' not in p and ':' not in i and '_' not in i:
         out.append(['str', p + '_' + i])
     return out
